@@ -8,7 +8,7 @@
    constant breaks the proofs). *)
 From Coq Require Import List NArith ZArith Bool.
 From TarsV Require Import Gen.Consts Select.Failover Select.FailoverProofs Select.FailoverInv Select.FailoverThms
-  Select.FailoverExamples Select.FailoverQueue.
+  Select.FailoverExamples Select.FailoverQueue Select.FailoverBack.
 From TarsV Require Xlate.CheckActiveEquiv.
 Import ListNotations.
 Open Scope Z_scope.
@@ -157,6 +157,26 @@ Theorem C15_stays_blocked : forall ls s s' ai a, run s ls = Some s' ->
   exists a', get ai s' = Some a' /\ ast a' = false /\ memN ai (reinst s') = false.
 Proof. exact FailoverThms.stays_blocked. Qed.
 Print Assumptions C15_stays_blocked.
+
+(* clause 4c - no lock-out ("... and come back"): in scope, once the probe interval of a blocked endpoint has elapsed, a status
+   check that finds it reachable queues the probe of its adapter (whatever else is queued, whatever the dedupe set holds) ... *)
+Theorem C15_probe_requested_when_due : forall s e ai a r s', reachable s -> shrunk s = false ->
+  In e (reg s) -> lookup e (att s) = Some ai -> get ai s = Some a -> ast a = false ->
+  30 <= now s - tB a -> In e r -> step s (Check r) = Some s' ->
+  In ai (probeq s') /\ exists a', get ai s' = Some a' /\ ast a' = false.
+Proof. exact FailoverBack.probe_requested_when_due. Qed.
+Print Assumptions C15_probe_requested_when_due.
+
+(* ... and from EVERY reachable in-scope state with a blocked endpoint there is a way back that needs nothing but the
+   environment's cooperation: 30 s pass, a status check finds it reachable, selections take the queued probes (drain: only
+   SelProbe steps), its probe is answered, the reinstatement runs - and it is back in the selectors, active, counters clear *)
+Theorem C15_can_come_back : forall s e ai a, reachable s -> shrunk s = false ->
+  In e (reg s) -> lookup e (att s) = Some ai -> get ai s = Some a -> ast a = false ->
+  exists drain s', all_selprobe drain /\
+    run s ([Advance 30; Check [e]] ++ drain ++ [Out ai true true; Reinstate ai]) = Some s' /\
+    In e (sel s') /\ exists a', get ai s' = Some a' /\ ast a' = true /\ gfail a' = 0.
+Proof. exact FailoverBack.can_come_back. Qed.
+Print Assumptions C15_can_come_back.
 
 (* clause 5: with a non-empty registry list the selection never returns nil: the head of the probe queue if there is
    one, otherwise a member of the selectors, otherwise (every endpoint blocked) an endpoint of the registry list *)
